@@ -138,6 +138,17 @@ func svPreETHTracker(pre *svEthPre) func(e *svEnv) {
 		if err != nil {
 			sv.Unreachable("tracker")
 		}
+		// the ERC20 variants share the engines and differ inside the transition functions
+		if sv.Choice("eth.erc", 2) == 1 {
+			if t.Type == trackerlib.ProcessTypeLock {
+				t.Type = trackerlib.ProcessTypeLockERC
+			} else {
+				t.Type = trackerlib.ProcessTypeRedeemERC
+			}
+			if err := ts.Set(t); err != nil {
+				sv.Unreachable("tracker type")
+			}
+		}
 		// any reachable state of the lock / redeem state machine: the finality handler
 		// moves a tracker to Released / Failed in the transaction whose vote decides it
 		// (svPreETH set that); an undecided one is New (no votes yet: created in this
@@ -168,7 +179,7 @@ func svPreETHTracker(pre *svEthPre) func(e *svEnv) {
 
 // SV_C01_witness_role: block-end tracker transitions, plain node vs witness node.
 //
-// sv:bounds one ongoing lock or redeem tracker (4 witnesses) in any reachable state (New without votes, BusyBroadcasting, BusyFinalizing with votes, Released / Failed once decided), with recorded votes from 3 representative vectors in 2 rotations (thorough: 8 vectors in 4 rotations, tracker also in the failed store) (so the witness node may or may not have voted); replica 1: a plain node; replica 2: the node of witness A whose local job store holds nothing, a broadcast job (new / completed / failed), or a completed broadcast job and a finality job
+// sv:bounds one ongoing lock or redeem tracker, ETH or ERC20 type (4 witnesses) in any reachable state (New without votes, BusyBroadcasting, BusyFinalizing with votes, Released / Failed once decided), with recorded votes from 3 representative vectors in 2 rotations (thorough: 8 vectors in 4 rotations, tracker also in the failed store) (so the witness node may or may not have voted); replica 1: a plain node; replica 2: the node of witness A whose local job store holds nothing, a broadcast job (new / completed / failed), or a completed broadcast job and a finality job
 // sv:outside the job store's LevelDB / msgpack encoding (models svModel_NewJobStore, svModel_SaveJob, svModel_GetJob, svModel_JobExists, svModel_DeleteJob; the native replay uses the real store in a temporary directory); the jobs' own execution (off-chain); BTC trackers; several trackers
 // sv:goal both replicas make the same writes to the block state (keys, order, values) and leave the tracker in the same state and store: job creation is the only witness-local effect
 func SV_C01_witness_role() {
